@@ -308,3 +308,20 @@ func joinToks(ts []Tok) string {
 	}
 	return b.String()
 }
+
+// warmSiblings evaluates every public method on colliding sibling recipes first, so that a
+// process-wide memo keyed too coarsely is filled with the *wrong* entry before the recipe
+// under test is evaluated (results are discarded; the output is drained).
+func warmSiblings(c *Ctx, seed uint64, cfg CharCfg) {
+	r := Sub(seed, "siblings")
+	sibs := charSiblings(r, cfg)
+	for i, sc := range sibs {
+		rec := sc.Recipe()
+		genOp(NewTape(TapeSpec{Mode: "choice", Seed: mix(seed, "sib", i), Default: "random"}), &rec)
+		entropyOp(NewTape(TapeSpec{Mode: "raw"}), &rec)
+		under(NewTape(TapeSpec{Mode: "raw"}), func(r *OpResult) { r.F = float64(rec.SuccessProbability()); r.S = rec.Alphabet() })
+	}
+	if len(sibs) > 0 {
+		c.Probe("colliding_sibling_recipes_evaluated_first", int64(len(sibs)))
+	}
+}
